@@ -124,6 +124,31 @@ def falsify_typed(unit: str, prop: Optional[str], tries: int = 400) -> Dict[str,
     fc = REG.fns[unit]
     mi, node = find_def(unit)
     local = unit.split(":")[1]
+    if fc.model_opts.get("native_oracle") is not None and fc.model_opts.get("native_args") is not None:
+        import asyncio as _aio
+
+        if _aio.iscoroutinefunction(fn0_probe(mi.module, local)):
+            raise CannotReplay("native oracle handles synchronous functions only")
+        # the contract brings its own generator of real arguments (objects of repository classes)
+        # and an executable statement of the property: bounded native search, nothing else
+        fn0 = mi.module
+        for part_ in local.split("."):
+            fn0 = getattr(fn0, part_)
+        rng0 = random.Random(int(os.environ.get("VERIF_SEED", "0") or 0) * 7919 + 23)
+        ran0 = 0
+        for i in range(tries):
+            a0 = fc.model_opts["native_args"](rng0)
+            e0 = None
+            try:
+                r0 = fn0(**{k_: v_ for k_, v_ in a0.items() if not k_.startswith("_")})
+            except Exception as ex:  # the oracle also judges what holds when the function raises
+                r0, e0 = None, ex
+            ran0 += 1
+            if not fc.model_opts["native_oracle"](a0, r0, e0):
+                return {"clause_violated": True, "violated_clause": fc.model_opts.get("native_oracle_name", "native-oracle"), "clause": (fc.model_opts["native_oracle"].__doc__ or "").strip(),
+                        "tries": i + 1, "inputs": {k: _show(v) for k, v in a0.items() if k not in ("_box", "_sent")}, "result": repr(r0) if e0 is None else "raised " + repr(e0),
+                        "how": "arguments from the contract's own generator run on the real function; the contract's executable oracle evaluated on the real result"}
+        return {"clause_violated": False, "tries": tries, "executed": ran0}
     if "." in local:
         raise CannotReplay("typed falsifier handles module level functions only")
     if not (fc.modifies == [] and fc.effect == "atomic"):
@@ -201,3 +226,17 @@ def _concrete_bool(v):
             return False
         raise ValueError("not concrete")
     return bool(v)
+
+
+def _show(v):
+    d = getattr(v, "__dict__", None)
+    if d and not isinstance(v, type):
+        return type(v).__name__ + "(" + ", ".join(f"{k}={x!r}" for k, x in list(d.items())[:8] if k in ("headers", "server_names", "_server_names", "method", "raw_path")) + ")"
+    return repr(v)
+
+
+def fn0_probe(module, local):
+    f = module
+    for part_ in local.split("."):
+        f = getattr(f, part_)
+    return f
